@@ -40,6 +40,65 @@ theorem c03_never_below (c : Ctl) (h : CInv c) (off len : Nat) (f : List String)
   | false => rfl
   | true => exact absurd (by rw [(c03_gate c hro off len f t).1]) hacc
 
+/-- the state in which `Controller.WriteAt` fans the request out, if it does: the state of the request
+    itself, or — for a request that is first completed from the RW replicas while a WO replica is
+    attached — the state after that read, the readers that failed it dropped -/
+def writeFanOutState (c : Ctl) (off len : Nat) (tried : List (String × Out)) : Option Ctl :=
+  if c.readOnly then none else
+  if off + len > c.size then none else
+  if c.needsWiden off len then
+    if !c.available then none else
+    let c1 := c.readCalls tried
+    let errs := (tried.filter fun t => t.2 = .fail).map (·.1)
+    let served := tried.any fun t => t.2 = .ok
+    if errs.isEmpty then (if served then some c1 else none) else
+    if served ∧ !(c1.ioFail errs).2 then
+      (if (c1.ioFail errs).1.readOnly then none else some (c1.ioFail errs).1)
+    else none
+  else some c
+
+theorem readCalls_readOnly (t : List (String × Out)) : ∀ c : Ctl, (c.readCalls t).readOnly = c.readOnly := by
+  induction t with
+  | nil => intro c; rfl
+  | cons x xs ih =>
+    intro c
+    show (Ctl.readCalls (match c.readers.find? (fun r => r.1 = x.1) with
+      | some r => c.call r.2 "ReadAt" | none => c) xs).readOnly = c.readOnly
+    rw [ih]
+    split <;> rfl
+
+theorem stepWrite_fanOut (c : Ctl) (off len : Nat) (f : List String) (t : List (String × Out)) (c' : Ctl)
+    (h : writeFanOutState c off len t = some c') : c.stepWrite off len f t = c'.stepFanOut "WriteAt" f := by
+  unfold writeFanOutState at h
+  unfold stepWrite
+  simp only at h ⊢
+  repeat' split at h
+  all_goals first
+    | (cases h; done)
+    | (injection h with h; subst h; simp only [*, ↓reduceIte, and_self, not_true_eq_false, not_false_eq_true] <;> simp)
+
+/-- **C03 (the fan-out itself happens with a quorum).** Whenever `Controller.WriteAt` sends the request to
+    the replicas, the volume has a quorum of RW replicas AT THAT MOMENT — also when the read that
+    completes a sub-block request (a WO replica is attached) has just cost it replicas: the gate is
+    looked at again after that read (fix in /repo; before it, a write could be fanned out to, and
+    acknowledged by, one RW replica and the rebuilding one). -/
+theorem c03_fanout_with_quorum (c : Ctl) (hc : CInv c) (off len : Nat) (t : List (String × Out)) (c' : Ctl)
+    (h : writeFanOutState c off len t = some c') : rwOf c'.replicas ≥ c'.rf / 2 + 1 := by
+  have key : CInv c' ∧ c'.readOnly = false := by
+    unfold writeFanOutState at h
+    simp only at h
+    have i1 := cinv_readCalls c hc t
+    have ro1 := readCalls_readOnly t c
+    repeat' split at h
+    all_goals first
+      | (cases h; done)
+      | (injection h with h; subst h
+         first
+           | exact ⟨hc, by simp_all⟩
+           | exact ⟨i1, by rw [ro1]; simp_all⟩
+           | exact ⟨cinv_ioFail _ i1 _, by simp_all⟩)
+  exact (c03_status_exact c' key.1).mp key.2
+
 /-- **C03 (recovers).** With a quorum the gate is open. -/
 theorem c03_recovers (c : Ctl) (h : CInv c) (hq : rwOf c.replicas ≥ c.rf / 2 + 1) : c.readOnly = false :=
   (c03_status_exact c h).mpr hq
